@@ -109,6 +109,16 @@ theorem free_no_hang (ft : FatType) (f : Array Nat) (total c : Nat) (cs : List N
   obtain ⟨f', h1, _⟩ := free_spec ft f total c cs ht hch hnd hin (total + 2) hlen
   rw [h1]; intro h; cases h
 
+/-- the F10 mechanism as modelled: with the latch set (a failed `next()`), `free` can only end in `hang` as long as the
+    writes succeed. In the pure setting the latch cannot be set while the write succeeds (a read of entry `n` fails
+    iff the write of entry `n` fails), which is why `hang` is unreachable here and needs a device fault. -/
+theorem free_latched_hangs (ft : FatType) (k : Nat) (f : Array Nat) (n cnt : Nat) (h : InRange ft f n)
+    (hs : ft = .fat32 → ¬ special32 n) : (freeLoop ft k f ⟨some n, true⟩ cnt).out = .error .hang :=
+  freeLoop_latched_hangs ft k f n cnt h hs
+
+example : (freeLoop .fat16 1000 exTab ⟨some 5, true⟩ 0).out = .error .hang :=
+  free_latched_hangs .fat16 1000 exTab 5 0 (by decide) (by intro h; cases h)
+
 /-- **chains_inv.** The FAT-level structural invariant `FatWf` (links in range, links point to allocated entries, no
     two links to the same cluster, no cycles — i.e. the allocated entries form disjoint acyclic chains) is preserved
     by the byte-level `alloc_cluster` … -/
